@@ -85,8 +85,8 @@ func genC09(cfg Config, emit Emit) error {
 		normalize(w)
 		procs := []int{1, 2, 4, 16}[r.Intn(4)]
 		conc := 1
-		if r.Intn(4) == 0 {
-			conc = 2 + r.Intn(3)
+		if r.Intn(3) == 0 {
+			conc = 2 + r.Intn(5)
 		}
 		emit("batch", []string{"C09", mustJSON(w), itoa(r.Intn(1 << 30)), itoa(procs), itoa(conc)}, fmt.Sprintf("size%d/procs%d/conc%d", size, procs, conc), size > 1)
 	})
@@ -134,6 +134,12 @@ func execBatch(a []string) (res Result) {
 	srv, err := cw.buildServer(log, &calls, &mu, perturb)
 	if err != nil {
 		return Result{Impl: "server-error:" + err.Error()}
+	}
+	// half of the batches travel over HTTP: one channel shared by all concurrent requests
+	if seed%2 == 0 {
+		ch, closeFn := httpFront(srv)
+		defer closeFn()
+		cw.channel = ch
 	}
 	outs := make([]string, conc)
 	var wg sync.WaitGroup
